@@ -243,10 +243,17 @@ impl Visitor<Diagnostic> for RuleFunctionBlockUse<'_> {
     }
 
     fn visit_var_decl(&mut self, node: &VarDecl) -> Result<Self::Value, Diagnostic> {
-        if let InitialValueAssignmentKind::FunctionBlock(fbi) = &node.initializer {
+        // A variable is an instance of a function block when its type is one, with or
+        // without initial values (`name : TYPE := (a := 1)` is parsed as a structure
+        // initializer whatever TYPE is).
+        let type_name = match &node.initializer {
+            InitialValueAssignmentKind::FunctionBlock(fbi) => Some(&fbi.type_name.name),
+            InitialValueAssignmentKind::Structure(si) => Some(&si.type_name.name),
+            _ => None,
+        };
+        if let Some(type_name) = type_name {
             if let Some(id) = node.identifier.symbolic_id() {
-                self.var_to_fb
-                    .insert(id.clone(), fbi.type_name.name.clone());
+                self.var_to_fb.insert(id.clone(), type_name.clone());
             }
         }
         Ok(())
